@@ -125,6 +125,44 @@ def check(chk):
                     ok = len(trys) == 1 and [src(r.value) for r in rets] == [var] and after is not None and \
                         all(isinstance(x, ast.Try) and x is trys[0] or (isinstance(x, (ast.Expr, ast.Assign, ast.Return)) and not _may_raise_call(x)) for x in after)
                     chk.judge(ok, 'C45.created', c, '_try_connect: connection returned on success, closed if setup raises', 'a control connection can escape unclosed when its setup fails')
+                elif q.startswith('ControlConnection._') and _only_called_from(cl, q, 'ControlConnection._try_connect') and \
+                        any(isinstance(r_, ast.Return) and r_.value is not None and src(r_.value) == var for r_ in body_walk(f)):
+                    # the negotiation loop moved into a private helper of _try_connect: the helper returns the connection or closes it before it raises,
+                    # and _try_connect treats the helper's result as _try_connect treats a connection it created itself
+                    from ..cfg import CFG as _CFG45, Flow as _Flow45
+                    gh_ = _CFG45(f, may_raise=lambda n_: ['Exception'] if any(isinstance(x_, ast.Call) for x_ in walk_no_nested(n_)) else [])
+
+                    def _edge_h(n_, s_, lab_, c_, var=var, call=c):
+                        if lab_ is not None and lab_[0] == 'exc':
+                            if n_.ast is not None and any(isinstance(x_, ast.Call) and src(x_.func) == '%s.close' % var for x_ in walk_no_nested(n_.ast)):
+                                return 'closed'                         # close() itself failing: nothing more can be done for this connection
+                            return c_                                   # the statement that raised had no effect (a failed creation created nothing)
+                        if n_.kind == 'stmt' and n_.ast is not None:
+                            if any(x_ is call for x_ in ast.walk(n_.ast)):
+                                return 'open'
+                            if any(isinstance(x_, ast.Call) and src(x_.func) == '%s.close' % var for x_ in walk_no_nested(n_.ast)):
+                                return 'closed'
+                        return c_
+                    fh_ = _Flow45(gh_, 'none', lambda n_, c_: c_, edge=_edge_h)
+                    leak = [st_ for st_ in fh_.at(gh_.raise_exit) if st_[1] == 'open']
+                    # an exception raised by a statement after the creation, other than the deliberate raise after close(): only calls on the connection itself could raise there
+                    risky = [n_ for n_ in gh_.stmt_nodes() if n_.kind == 'stmt' and any(isinstance(x_, ast.Call) and src(x_.func) not in ('%s.close' % var,) and x_ is not c
+                                                                                         and not src(x_.func).startswith(('log.', 'self._cluster.protocol_downgrade', 'DriverException'))
+                                                                                         for x_ in walk_no_nested(n_.ast)) and any(cc == 'open' for _f, cc in fh_.at(n_))]
+                    tcf = cl.func('ControlConnection._try_connect')
+                    asg_ = [st_ for st_ in tcf.body if isinstance(st_, ast.Assign) and isinstance(st_.value, ast.Call) and src(st_.value.func) == 'self.' + q.split('.')[-1]
+                            and isinstance(st_.targets[0], ast.Name)]
+                    okh = not risky and not leak and len(asg_) == 1
+                    if okh:
+                        v2 = asg_[0].targets[0].id
+                        trys = [t for t in body_walk(tcf) if isinstance(t, ast.Try) and any(src(h.type) == 'Exception' and [src(x) for x in h.body] == ['%s.close()' % v2, 'raise'] for h in t.handlers if h.type is not None)]
+                        rets = [r for r in body_walk(tcf) if isinstance(r, ast.Return) and r.value is not None]
+                        after = tcf.body[tcf.body.index(asg_[0]) + 1:]
+                        okh = len(trys) == 1 and [src(r.value) for r in rets] == [v2] and \
+                            all(isinstance(x, ast.Try) and x is trys[0] or (isinstance(x, (ast.Expr, ast.Assign, ast.Return)) and not _may_raise_call(x)) for x in after)
+                    chk.judge(okh, 'C45.created', c, '%s (helper of _try_connect): connection returned, or closed before an exception leaves; _try_connect closes it if setup raises' % q,
+                              'a control connection can escape unclosed (%s)' % ('a statement of the helper can raise while the connection is open: %s' % [src(n_.ast)[:50] for n_ in risky] if risky
+                                                                                 else '_try_connect does not guard the helper\'s result'))
                 else:
                     fin = [t for t in body_walk(f) if isinstance(t, ast.Try) and any(c is x for b in t.body for x in ast.walk(b)) and
                            any(isinstance(x, ast.If) and src(x.test) == var and [src(y) for y in x.body] == ['%s.close()' % var] for x in t.finalbody)]
@@ -299,3 +337,9 @@ def _handler_rule(chk):
     chk.judge(not leaks, 'C45.handler', gets[0].ast, 'every path from a successful try_reconnect() out of run() passes %s.close()' % var,
               'a path leaves run() with the freshly opened connection still open (e.g. the handler was cancelled by shutdown() while try_reconnect() was connecting): '
               'nobody else holds that connection, it stays open after the cluster is shut down')
+
+
+def _only_called_from(mod, q, caller):
+    name = q.split('.')[-1]
+    callers = set(qual_of(c_) for c_ in ast.walk(mod.tree) if isinstance(c_, ast.Call) and isinstance(c_.func, ast.Attribute) and c_.func.attr == name and src(c_.func.value) == 'self')
+    return callers == set([caller])
